@@ -471,4 +471,108 @@ theorem mergeNb_spec (nb : Dict (Dict Rat)) {n1 n2 new : Nat} (h12 : n1 ≠ n2) 
       · by_cases hk1x : K nb n1 x = true <;> by_cases hk2x : K nb n2 x = true <;>
           by_cases hk1y : K nb n1 y = true <;> by_cases hk2y : K nb n2 y = true <;> simp_all [Rat.add_zero, Rat.zero_add]
 
+
+/-! ### the invariant of the dict of dicts -/
+
+/-- rows with distinct keys, symmetric key structure, no key at or above `next`, symmetric non-negative weights -/
+structure NbInv (nb : Dict (Dict Rat)) (next : Nat) : Prop where
+  rows : RowsNodup nb
+  sym : ∀ x y, K nb x y = K nb y x
+  fresh : ∀ x z, next ≤ z → K nb x z = false
+  wsym : ∀ x y, getEntry nb x y = getEntry nb y x
+  nonneg : ∀ x y, 0 ≤ getEntry nb x y
+
+theorem nbInv_merge {nb : Dict (Dict Rat)} {next n1 n2 : Nat} (h : NbInv nb next) (h12 : n1 ≠ n2)
+    (h1 : n1 < next) (h2 : n2 < next) : NbInv (mergeNb nb n1 n2 next) (next + 1) := by
+  have h4 : next ≠ n1 := by omega
+  have h5 : next ≠ n2 := by omega
+  obtain ⟨hr, hW, hK⟩ := mergeNb_spec nb h12 h4 h5 h.rows (fun x => h.fresh x next (Nat.le_refl _)) h.sym
+  refine ⟨hr, ?_, ?_, ?_, ?_⟩
+  · intro x y
+    rw [hK, hK]
+    by_cases hx : x = n1 ∨ x = n2
+    · have : y = n1 ∨ y = n2 ∨ x = n1 ∨ x = n2 := by rcases hx with e | e <;> simp [e]
+      have : x = n1 ∨ x = n2 ∨ y = n1 ∨ y = n2 := by rcases hx with e | e <;> simp [e]
+      simp [*]
+    · by_cases hy : y = n1 ∨ y = n2
+      · have : x = n1 ∨ x = n2 ∨ y = n1 ∨ y = n2 := by rcases hy with e | e <;> simp [e]
+        have : y = n1 ∨ y = n2 ∨ x = n1 ∨ x = n2 := by rcases hy with e | e <;> simp [e]
+        simp [*]
+      · have e1 : ¬ (x = n1 ∨ x = n2 ∨ y = n1 ∨ y = n2) := by
+          intro e; rcases e with e | e | e | e
+          · exact hx (Or.inl e)
+          · exact hx (Or.inr e)
+          · exact hy (Or.inl e)
+          · exact hy (Or.inr e)
+        have e2 : ¬ (y = n1 ∨ y = n2 ∨ x = n1 ∨ x = n2) := by
+          intro e; rcases e with e | e | e | e
+          · exact hy (Or.inl e)
+          · exact hy (Or.inr e)
+          · exact hx (Or.inl e)
+          · exact hx (Or.inr e)
+        simp only [e1, e2, if_false]
+        by_cases hxn : x = next <;> by_cases hyn : y = next
+        · simp [hxn, hyn]
+        · simp [hxn, hyn]
+        · simp [hxn, hyn]
+        · simp [hxn, hyn, h.sym x y]
+  · intro x z hz
+    rw [hK]
+    have hz1 : z ≠ n1 := by omega
+    have hz2 : z ≠ n2 := by omega
+    have hzn : z ≠ next := by omega
+    have f1 := h.fresh n1 z (by omega)
+    have f2 := h.fresh n2 z (by omega)
+    have f3 := h.fresh x z (by omega)
+    by_cases hx : x = n1 ∨ x = n2
+    · have : x = n1 ∨ x = n2 ∨ z = n1 ∨ z = n2 := by rcases hx with e | e <;> simp [e]
+      simp [this]
+    · have e1 : ¬ (x = n1 ∨ x = n2 ∨ z = n1 ∨ z = n2) := by
+        intro e; rcases e with e | e | e | e
+        · exact hx (Or.inl e)
+        · exact hx (Or.inr e)
+        · exact hz1 e
+        · exact hz2 e
+      simp [e1, hzn, f1, f2, f3]
+  · intro x y
+    rw [hW, hW]
+    by_cases hx : x = n1 ∨ x = n2
+    · have : y = n1 ∨ y = n2 ∨ x = n1 ∨ x = n2 := by rcases hx with e | e <;> simp [e]
+      have : x = n1 ∨ x = n2 ∨ y = n1 ∨ y = n2 := by rcases hx with e | e <;> simp [e]
+      simp [*]
+    · by_cases hy : y = n1 ∨ y = n2
+      · have : x = n1 ∨ x = n2 ∨ y = n1 ∨ y = n2 := by rcases hy with e | e <;> simp [e]
+        have : y = n1 ∨ y = n2 ∨ x = n1 ∨ x = n2 := by rcases hy with e | e <;> simp [e]
+        simp [*]
+      · have e1 : ¬ (x = n1 ∨ x = n2 ∨ y = n1 ∨ y = n2) := by
+          intro e; rcases e with e | e | e | e
+          · exact hx (Or.inl e)
+          · exact hx (Or.inr e)
+          · exact hy (Or.inl e)
+          · exact hy (Or.inr e)
+        have e2 : ¬ (y = n1 ∨ y = n2 ∨ x = n1 ∨ x = n2) := by
+          intro e; rcases e with e | e | e | e
+          · exact hy (Or.inl e)
+          · exact hy (Or.inr e)
+          · exact hx (Or.inl e)
+          · exact hx (Or.inr e)
+        simp only [e1, e2, if_false]
+        by_cases hxn : x = next <;> by_cases hyn : y = next
+        · simp [hxn, hyn]
+        · simp [hxn, hyn, h.wsym y n1, h.wsym y n2]
+        · simp [hxn, hyn, h.wsym x n1, h.wsym x n2]
+        · simp [hxn, hyn, h.wsym x y]
+  · intro x y
+    rw [hW]
+    split
+    · exact Rat.le_refl
+    · split
+      · exact Rat.add_nonneg (Rat.add_nonneg (Rat.add_nonneg (Rat.add_nonneg Rat.le_refl (h.nonneg _ _))
+          (h.nonneg _ _)) (h.nonneg _ _)) (h.nonneg _ _)
+      · split
+        · exact Rat.add_nonneg (h.nonneg _ _) (h.nonneg _ _)
+        · split
+          · exact Rat.add_nonneg (h.nonneg _ _) (h.nonneg _ _)
+          · exact h.nonneg _ _
+
 end SkNet.Agg
